@@ -118,7 +118,8 @@ Theorem C18_routedClean_is_kmp_argument : forall g hots L cfg acc idx r acc', aA
   ringStep g hots L cfg acc idx r = Ok acc' ->
   exists c m sets, routedClean g hots L idx r = Ok c /\
     (if (length c <? 3)%nat then Ok (mkSets [] [] (asPointOrLine c))
-     else do r2 <- kmpDeduplicate c;
+     else do rk <- kmpDeduplicate c;
+          let r2 := trimClosing rk in   (* the closing vertex is dropped again after spike removal (F14) *)
           if (length r2 <? 3)%nat then Ok (mkSets [] [] (asPointOrLine r2)) else splitRing r2 (Nat.eqb idx 0) m) = Ok sets /\
     acc' = if deadb cfg (Nat.eqb idx 0) sets
            then mkAcc false (aHits acc') (aOuters acc) (aInners acc) (aPL acc)
